@@ -151,6 +151,17 @@ pub mod nom_c {
                     && r->Ok_0.0@ == i@.subrange(count.vf_count(), i@.len() as int) },
     { move |i| { unimplemented!() } }
 
+    /// nom::bytes::streaming::take(n): the first n bytes, or Incomplete when fewer are present
+    #[verifier::external_body]
+    pub fn take_streaming<'a, C: VfCount>(count: C) -> (h: impl Fn(&'a [u8]) -> IResult<&'a [u8], &'a [u8]>)
+        ensures
+            forall|i: &'a [u8]| h.requires((i,)),
+            forall|i: &'a [u8], r: IResult<&'a [u8], &'a [u8]>| #[trigger] h.ensures((i,), r) ==>
+                if i@.len() < count.vf_count() { r is Err && r->Err_0 is Incomplete } else {
+                    r is Ok && r->Ok_0.1@ == i@.subrange(0, count.vf_count())
+                    && r->Ok_0.0@ == i@.subrange(count.vf_count(), i@.len() as int) },
+    { move |i| { unimplemented!() } }
+
     /// nom::combinator::map(parser, f)
     #[verifier::external_body]
     pub fn map<'a, O1, O2, F: Fn(&'a [u8]) -> IResult<&'a [u8], O1>, G: Fn(O1) -> O2>(parser: F, f: G)
